@@ -25,7 +25,7 @@ func init() {
 
 var c10Devs = []string{"NULL_OBJECT_VALIDATES_ZERO", "LEN_BYTES", "UNENFORCED_NAMED_ARRAY", "UNENFORCED_ITEM_STRING", "UNENFORCED_ITEM_NUMERIC", "REF_UNTYPED_DEF_IS_ANY", "FORMAT_DEF_NO_METHODS", "UNENFORCED_NAMED_ARRAY_ITEM_REQUIRED",
 	"UNENFORCED_INLINE_STRUCT_PROPS", "COMPOSITE_DEF_REF_IS_ANY", "ANYOF_MERGED_FIELD_TYPES", "UNENFORCED_MAPVAL_STRING", "UNENFORCED_MAPVAL_NUMERIC", "UNENFORCED_MAPVAL_REQUIRED", "NULLTYPE_UNENFORCED",
-	"RECURSIVE_ANYOF_IS_ANY"}
+	"RECURSIVE_ANYOF_IS_ANY", "DEFAULT_BEHIND_REF_IGNORED"}
 
 type c10Mode struct {
 	name    string
@@ -72,6 +72,7 @@ func c10Base() (J, []c10Pos) {
 			"o":  J{"type": "object", "properties": J{"in": J{"type": "string", "maxLength": 3}, "req": J{"type": "integer"}}, "required": A{"req"}},
 			"e":  J{"type": "string", "enum": A{"x", "y"}},
 			"m":  J{"type": "object", "additionalProperties": J{"type": "string"}},
+			"dv": J{"type": "integer", "minimum": 1, "default": 5},
 		},
 		"required": A{"s", "o"}}
 	prop := func(name string, keys ...string) c10Pos {
@@ -92,7 +93,7 @@ func c10Base() (J, []c10Pos) {
 			}}
 	}
 	pos := []c10Pos{
-		prop("Str", "s"), prop("N", "n"), prop("Arr", "a"), prop("Item", "a", "items"), prop("Obj", "o"), prop("Inner", "o", "properties", "in"), prop("En", "e"), prop("Mp", "m"),
+		prop("Str", "s"), prop("N", "n"), prop("Arr", "a"), prop("Item", "a", "items"), prop("Obj", "o"), prop("Inner", "o", "properties", "in"), prop("En", "e"), prop("Mp", "m"), prop("Dflt", "dv"),
 	}
 	return base, pos
 }
